@@ -159,8 +159,10 @@ func (r *yieldRewriter) rewriteStmts(
 	}
 
 	if isLast {
-		if children.kind == kindDelay {
-			r.generateLastNormalIfNecessary(children)
+		// following differs from children when the statement switched to a new
+		// callback body (for/switch with a yielding init): that body ends here
+		if following.kind == kindDelay {
+			r.generateLastNormalIfNecessary(following)
 		}
 	} else {
 		following = r.combineIfNecessary(following)
